@@ -10,31 +10,50 @@ Correspondence:
      direct oracle: a divergence from it is a concrete violation (the failing op sequence is the witness).
  (2) alias-probe Go programs: every copying / aliasing context of the property text x random struct/array shapes,
      mutation on both sides, hashes of both sides printed; real compiler + node versus native Go, line by line.
+ (3) the translator's copy decisions (phase 4): one Go function per (context x type shape x expression class) of
+     coq/Model/C07_Decision.v — the complete domain of 2940 valid sites, on random instances of each shape — compiled with
+     the real gopherjs; the `$clone(` / `.copy(` occurrences in the emitted JavaScript of every site are counted and must
+     equal Model.C07_Decision.site_counts; independently of the model, a site where Go copies a struct/array value whose
+     source stays reachable and where nothing copies is a concrete violation (harness/py/c07_sites.py).
 """
 import json, os, re, sys
 import common as C
 import c07_gen as G
 import c07_spec as S
 import c07_progs as PG
+import c07_sites as ST
 
 ID = "C07"
 PROPS_FILE = "Props/C07.v"
-MODEL_TARGETS = ["Corr/C07_Eval.v"]
+MODEL_TARGETS = ["Corr/C07_Eval.v", "Corr/C07_DecisionEval.v"]
 ALLOWED_AXIOMS = []
 RULE = ("op sequences: 3-9 type shapes (typed-array numerics, strings, ptr/slice/map references, arrays 0-4, structs 0-4 fields, "
         "nesting <= 4), 4-14 ops over value and slice registers, a quarter of the cases start with an overlapping-window scenario "
         "(make, fill, two subslices, copy both ways, self-append). non-trivial = a clone/copy/append/copyslice followed by a write; distinct by (types, ops). "
         "programs: every context template x random named struct/array shapes (embedding, named element types, reference fields), "
-        "random mutated leaf on each side; distinct by source text")
+        "random mutated leaf on each side; distinct by source text. decision sites: ALL 2940 valid (context, shape, expression class) "
+        "triples of the model, each its own function with exactly one occurrence of the context, on random instances of the 8 type "
+        "shapes (field lists, element types, lengths); quick: one instance per shape, thorough: six")
 TRUSTED = ["model of type.zero/type.copy/$clone/$copyArray/$subslice/$append/$growSlice/$copySlice/$makeSlice written by hand "
            "(coq/Model/C07_Heap.v), tied by this correspondence",
            "harness/js/c07_driver.js (drives the real prelude, canonical snapshot), harness/py/c07_spec.py (Go semantics oracle)",
-           "translator clone sites (translateAssign, translateArgs, composite literals, sends, map stores, boxing, receivers) are NOT "
-           "modelled in Coq: they are checked only differentially against native Go on generated programs",
+           "model of the translator's copy decisions (coq/Model/C07_Decision.v: translateAssign, translateImplicitConversionWithCloning, "
+           "translateArgs, makeReceiver, composite literals, send/select, map stores, range, return, boxing, receiver proxies) written by "
+           "hand, tied site by site to the JavaScript the real compiler emits (counts of $clone( and .copy( per site function)",
+           "the classification on the Go side of C07_clone_decision_sound (stores / may_alias / finding) is a definition, not derived from a "
+           "Go semantics; it is duplicated independently in harness/py/props/c07.py (D_NOT_STORING, D_FRESH, D_FINDING) as the direct oracle, "
+           "and its consequences are checked dynamically by the alias-probe programs of tie 2",
+           "textual detection of a copy in the emitted JavaScript ($clone( / .copy( inside the site function, cut out by a regular expression); "
+           "the reflect.Value exception in translateAssign is not modelled (reflect does not build here)",
            "native Go 1.23 as reference for the program-level half; node as the JS engine (typed-array set() = memmove)"]
 ASSUMPTIONS = ["reference kinds (pointer, slice, map, chan, func, interface values) are opaque identities in the model",
                "64-bit / complex leaves are immutable objects, modelled as scalars",
-               "reflect, unsafe and js-tagged struct fields are out of scope"]
+               "reflect, unsafe and js-tagged struct fields are out of scope",
+               "C07_copy_slice_overlap_nodes / C07_append_refines_in_place assume that the elements of the backing array own pairwise "
+               "disjoint nodes (NoDup ns, ~ In a ns): true of every array built by $makeSlice/$growSlice/zero (C07_overlap_hypotheses_satisfiable), "
+               "not proved as an invariant of arbitrary op sequences",
+               "a call result is treated as possibly aliasing storage (return emits no clone); a received channel value, a composite literal and "
+               "a cloning conversion are treated as fresh"]
 
 DRIVER = os.path.join(C.JS, "c07_driver.js")
 
@@ -314,12 +333,136 @@ def programs(ctx):
     ctx.cov["program_distribution"] = stats
 
 
+
+# ---------------------------------------------------------------- tie 3: the translator's copy decisions, site by site
+
+# Go-side classification written independently of the Coq model (the direct oracle of C07_clone_decision_sound)
+D_NOT_STORING = {"CReturn", "CBlank"}
+D_FINDING = {"CBoxAssign": "box-into-interface-does-not-copy", "CBoxArg": "box-into-interface-does-not-copy",
+             "CBoxReturn": "box-into-interface-does-not-copy", "CRangeExprArray": "range-over-array-value-does-not-copy",
+             "CMethodValueCall": "value-receiver-indirect-call-does-not-copy", "CIfaceCall": "value-receiver-indirect-call-does-not-copy",
+             "CIfacePtrCall": "value-receiver-indirect-call-does-not-copy", "CMethodExprPtrCall": "value-receiver-indirect-call-does-not-copy"}
+D_FRESH = {"ECompLit", "EParenLit", "EConvOther", "ERecv"}      # the expression yields an object nobody else holds
+D_RUNTIME_COPY = {"CAppendArg"}                                 # $append -> $copyArray copies array/struct elements (tie 1)
+
+
+def decisions(ctx):
+    r = ctx.rng("decision-sites")
+    rounds = 1 if ctx.quick else 6
+    jobs = [(k, sh) for k in range(rounds) for sh in ST.SHAPES]
+    progs = [ST.gen_program(r, sh) for _, sh in jobs]
+
+    def one(i):
+        src, sites = progs[i]
+        d = os.path.join(ctx.work, "sites%d" % i)
+        C.write_go_program(d, {"main.go": src}, module="verifc07")
+        rc, log = C.gopherjs_build(d, timeout=1500)
+        if rc != 0:
+            return i, ("timeout" if rc == 124 else "build"), log
+        return i, "ok", open(os.path.join(d, "out.js")).read()
+
+    stats = dict(programs=len(jobs), sites=0, by_emitted={}, findings_confirmed_no_copy=0, model_mismatches=0, oracle_failures=0)
+    dcases, dmeta = [], []
+    seen = set()
+    for i, how, data in C.parallel_map(one, range(len(jobs))):
+        src, sites = progs[i]
+        ctx.count(["sites", src], nontrivial=True)
+        if how == "timeout":
+            ctx.notes.append("skipped site program %d: build timed out" % i)
+            continue
+        if how == "build":
+            ctx.violation("site-program-build-failed", "gopherjs build failed on a generated clone-decision site program",
+                          dict(kind="sites", source=src, log=data[-1500:]), concrete=False)
+            continue
+        counts = ST.count_sites(data)
+        own = {}                                   # clones of the expression itself, MEASURED at the `_ = e` site
+        for name, (c, sh, e) in sites.items():
+            if c == "CBlank" and name in counts:
+                own[e] = counts[name][0]
+        for name, (c, sh, e) in sorted(sites.items(), key=lambda kv: int(kv[0].split("_")[1])):
+            if name not in counts:
+                ctx.violation("site-function-not-found", "site function %s (%s %s %s) is missing from the emitted JavaScript" % (name, c, sh, e),
+                              dict(kind="sites", site=[c, sh, e], source=src), concrete=False)
+                continue
+            ncl, ncp, body = counts[name]
+            stats["sites"] += 1
+            key = "%s:%d/%d" % (c, min(ncl, 9), ncp)
+            stats["by_emitted"][key] = stats["by_emitted"].get(key, 0) + 1
+            seen.add((c, sh, e))
+            # --- direct oracle: where Go copies and the source stays reachable, the emitted code must copy
+            must = (sh in ST.VALUE_SHAPES and c not in D_NOT_STORING and e not in D_FRESH)
+            copied = (ncl - own.get(e, 0)) + ncp > 0 or c in D_RUNTIME_COPY
+            fsrc = re.search(r"func %s\(.*?\n}\n" % name, src, re.S)
+            rp = dict(kind="site", site=[c, sh, e], go=fsrc.group(0) if fsrc else "", emitted_js=body[-1500:], clones=ncl, copies=ncp,
+                      clones_of_expression_itself=own.get(e, 0), source=src)
+            if must and not copied:
+                if c in D_FINDING:
+                    stats["findings_confirmed_no_copy"] += 1           # recorded; reported by the alias probes of tie 2
+                else:
+                    stats["oracle_failures"] += 1
+                    sig = "translator-omits-copy-%s" % c
+                    if (sig, e) not in seen:
+                        seen.add((sig, e))
+                        ctx.violation(sig, "context %s, %s value from %s: Go copies the value and the source stays reachable, but the emitted "
+                                      "JavaScript contains neither $clone nor .copy at this site" % (c, sh, e), rp)
+            if sh not in ST.VALUE_SHAPES and (ncl or ncp):
+                stats["oracle_failures"] += 1
+                ctx.violation("translator-copies-reference-%s" % c, "context %s on reference/basic shape %s: a $clone/.copy is emitted, aliases would be cut" % (c, sh), rp)
+            dcases.append("{| d_ctx := %s; d_sh := %s; d_e := %s; d_clones := %d; d_copies := %d |}" % (c, sh, e, ncl, ncp))
+            dmeta.append(rp)
+    if len(dcases) == 0:
+        return
+    # --- the model on exactly the same sites
+    shard = 800
+    shards = [list(range(i, min(i + shard, len(dcases)))) for i in range(0, len(dcases), shard)]
+
+    def run_shard(k):
+        p = os.path.join(ctx.work, "dcases_%d.v" % k)
+        with open(p, "w") as f:
+            f.write("From Coq Require Import List NArith.\nFrom Verif Require Import Model.C07_Decision Corr.C07_DecisionEval.\nImport ListNotations.\n")
+            f.write("Definition M := Eval vm_compute in dmismatches [\n%s].\nPrint M.\n" % ";\n".join(dcases[j] for j in shards[k]))
+            f.write("Definition V := Eval vm_compute in valid_sites.\nPrint V.\n")
+        rc, out = C.coq_run(p)
+        flat = out.replace("\n", " ")
+        m = re.search(r"M\s*=\s*(\[[^\]]*\])", flat)
+        v = re.search(r"V\s*=\s*(\d+)", flat)
+        if rc != 0 or not m or not v:
+            return k, None, out[-800:], 0
+        idxs = [int(x.replace("%N", "")) for x in re.findall(r"\d+(?:%N)?", m.group(1))]
+        if not idxs and m.group(1).strip("[] ") != "":          # a non-empty list we cannot read is a failure, not "no mismatch"
+            return k, None, out[-800:], 0
+        return k, idxs, "", int(v.group(1))
+
+    for k, idxs, err, nvalid in C.parallel_map(run_shard, range(len(shards))):
+        if idxs is None:
+            ctx.violation("model-eval-failed", "Coq evaluation of the decision model failed", dict(shard=k, log=err), concrete=False)
+            continue
+        if nvalid != len(ST.all_sites()):
+            ctx.violation("clone-decision-domain-mismatch", "the model has %d valid sites, the generator %d" % (nvalid, len(ST.all_sites())),
+                          dict(model=nvalid, generator=len(ST.all_sites())), concrete=False)
+        for i in idxs:
+            stats["model_mismatches"] += 1
+            if stats["model_mismatches"] <= 3:
+                rp = dmeta[shards[k][i]]
+                ctx.violation("clone-decision-model-mismatch",
+                              "site %s: the real compiler emits %d $clone / %d .copy, Model.C07_Decision.site_counts says otherwise "
+                              "(correspondence C07 broken)" % (rp["site"], rp["clones"], rp["copies"]),
+                              dict(rp, correspondence="Corr/C07_DecisionEval.dmismatches vs compiler/{expressions,statements,utils}.go"), concrete=False)
+    missing = [t for t in ST.all_sites() if t not in seen]
+    stats["valid_sites_in_model"] = len(ST.all_sites())
+    stats["valid_sites_not_compiled"] = len(missing)
+    ctx.cov["decision_sites"] = stats
+
+
 def correspond(ctx):
-    only = os.environ.get("VERIF_C07_ONLY", "")        # development aid: "sequences" or "programs"
-    if only != "programs":
+    only = os.environ.get("VERIF_C07_ONLY", "")        # development aid: "sequences", "programs" or "decisions"
+    if only in ("", "decisions"):
+        decisions(ctx)
+        ctx.log("decision sites done")
+    if only in ("", "sequences"):
         sequences(ctx)
         ctx.log("sequences done")
-    if only != "sequences":
+    if only in ("", "programs"):
         programs(ctx)
         ctx.log("programs done")
 
@@ -344,20 +487,41 @@ def replay(ctx, data):
         rc, out, err = C.sh2(["go", "run", "."], cwd=d, env=C.goenv())
         print("native  :", [l for l in (out + err).split("\n") if l.startswith(pid + " ")])
         print("recorded: impl=%r expected=%r" % (rp.get("impl"), rp.get("expected")))
+    elif rp.get("kind") == "site":
+        d = os.path.join(ctx.work, "replay")
+        C.write_go_program(d, {"main.go": rp["source"]}, module="verifc07")
+        rc, log = C.gopherjs_build(d)
+        print(log)
+        m = re.search(r"func (site_\d+)", rp.get("go", ""))
+        counts = ST.count_sites(open(os.path.join(d, "out.js")).read())
+        print("site    :", rp["site"])
+        print(rp.get("go", ""))
+        if m and m.group(1) in counts:
+            print("emitted now: %d $clone, %d .copy\n%s" % counts[m.group(1)])
+        print("recorded   : %d $clone, %d .copy (expression itself: %d)" % (rp["clones"], rp["copies"], rp["clones_of_expression_itself"]))
     else:
         print(json.dumps(data, indent=1))
     return 0
 
 
-TECHNIQUE = ("Coq proof (structural induction over arbitrary nested array/struct type shapes, heap frame reasoning) + differential "
-             "correspondence with the real prelude (node) and compiled alias-probe programs against native Go")
+TECHNIQUE = ("Coq proof (structural induction over arbitrary nested array/struct type shapes, heap frame reasoning, loop invariants for both "
+             "directions of $copyArray; complete case analysis over the finite domain of translator copy decisions) + differential "
+             "correspondence with the real prelude (node), with the JavaScript emitted by the real compiler for every decision site, and "
+             "compiled alias-probe programs against native Go")
 LEVEL_TEXT = ("Machine-checked theorems over an executable heap model of type.zero/type.copy/$clone/$copyArray/$subslice/$append/"
               "$growSlice/$copySlice: a clone has the same deep value as its source, shares no array/struct node with anything that "
               "existed before (so later writes on either side are invisible on the other), reference-kind fields stay shared; "
-              "subslice bounds; append shares the array iff the elements fit, otherwise a fresh array with own copies of the elements (any element type), the appended values, a zeroed tail and the coded capacity; [N]T(slice) copies the slice window; overlapping copy = memmove. The model is tied to the prelude on "
-              "every run by op sequences compared on canonical deep snapshots; the translator's copying/aliasing contexts are tied by "
-              "generated programs compared with native Go.")
-LEVEL_NOTE = ("Proof is about the hand-written prelude model; where the translator inserts $clone/.copy is not modelled in Coq and is "
-              "covered only differentially (programs vs native Go). Recorded findings (translator side): boxing into an interface does "
-              "not copy, range over an array value does not copy, value-receiver methods reached indirectly run on the original. "
-              "Still partial in Coq: same-array overlapping copy of array/struct elements (differential only).")
+              "subslice bounds; append shares the array iff the elements fit, otherwise a fresh array with own copies of the elements (any element type), the appended values, a zeroed tail and the coded capacity; append within capacity writes the deep values of the operands into the array's own element nodes and changes nothing else (any element type, also when the operand is the same array); [N]T(slice) copies the slice window; overlapping copy = memmove on cells (leaf elements) and on deep values with element identities preserved (array/struct elements, both loop directions). "
+              "Translator: an executable mirror of the compiler's copy decisions over 45 contexts x 8 type shapes x 13 expression classes; proved: every "
+              "storing context outside the three recorded findings copies a struct/array value whose source may stay reachable (also through any "
+              "number of returns), the copy is omitted exactly for `x := T{...}`, reference shapes are never copied, the findings are exactly the "
+              "contexts that never copy (refutation witnesses for the unrestricted statement). The heap model is tied to the prelude on "
+              "every run by op sequences compared on canonical deep snapshots; the decision model is tied by compiling all 2940 sites with the real "
+              "compiler and counting $clone/.copy per site; the copying/aliasing contexts are additionally run as alias-probe programs against native Go.")
+LEVEL_NOTE = ("Proofs are about hand-written models (prelude heap model, translator decision table), each tied to the real code on every run. "
+              "The decision theorem is a statement about the table (context x shape x expression class) with a defined Go-side classification "
+              "(stores / may_alias); it is not a semantics of Go programs: that the decided $clone makes a whole PROGRAM behave like Go is covered "
+              "only differentially (alias-probe programs vs native Go). Recorded findings (translator side, refutation witnesses in Coq): boxing "
+              "into an interface does not copy, range over an array value does not copy, value-receiver methods reached indirectly run on the "
+              "original. Still only compared, not proved: the NoDup invariant of backing arrays across arbitrary op sequences; C07_copy_slice_overlap_partial "
+              "is kept (leaf elements) next to the new C07_copy_slice_overlap_nodes (array/struct elements).")
